@@ -569,6 +569,11 @@ package slip
 //@ func slip.(*Method).BoundCall
 //@   property C11 C10
 //@   on-call Let#1 location-names-the-running-wrapper: is($arg1, ptr(WhopLoc)) && as($arg1, ptr(WhopLoc)).Current == i && as($arg1, ptr(WhopLoc)).Method == m
+// the same order when the arguments arrive bound in a scope (BoundReceive)
+//@ func slip.(*Method).BoundInnerCall
+//@   property C11 C10
+//@   on-call BoundCall same-scope: $arg0 == s
+//@   loop 0<=i: decreases after-daemons-in-reverse: i
 //@ func slip.(*Method).InnerCall
 //@   property C11 C10
 //@   on-call Call#1 before-daemon-of-this-combination: $arg0 == s && $arg1 == args
